@@ -40,9 +40,19 @@ def observed_values(lines):
     return out
 
 
+def _uniq(rows, n=10 ** 9):
+    """distinct simulated rows in a deterministic order (by content hash), at most n"""
+    import hashlib
+    seen = {}
+    for r in rows:
+        k = json.dumps(r, sort_keys=True)
+        seen.setdefault(hashlib.sha256(k.encode()).hexdigest(), r)
+    return [seen[h] for h in sorted(seen)][:n]
+
+
 def run(ctx):
     rnd = common.rng(ctx, "c01")
-    n_expr, n_prog, n_sim = (260, 140, 0) if ctx.quick else (5000, 1243, 2500)
+    n_expr, n_prog, n_sim = (260, 140, 0) if ctx.quick else (2500, 1243, 1200)
     with ctx.timed("tlc_gen"):
         ge = common.tlc(ctx, "GenExpr", cfg="GenExpr_d1" if ctx.quick else "GenExpr_d2", workers=8, timeout=3000)
         common.require_tlc_ok(ctx, ge, "GenExpr / Sound")
@@ -50,14 +60,15 @@ def run(ctx):
         common.require_tlc_ok(ctx, gp, "GenProg / Sound")
         gd = common.tlc(ctx, "GenData", cfg="GenData", workers=8, timeout=3000)
         common.require_tlc_ok(ctx, gd, "GenData / Sound / NonExhaustiveRejected")
-        gc = common.tlc(ctx, "GenCtl", cfg="GenCtl_quick" if ctx.quick else "GenCtl_full", workers=8, timeout=6000)
+        gc = common.tlc(ctx, "GenCtl", cfg="GenCtl_quick", workers=8, timeout=6000)
+        gc_sim = _uniq(common.tlc(ctx, "GenCtl", cfg="GenCtl_full", workers=1, timeout=1500, simulate=300, depth=7)["cases"]["CASE"], 1500) if not ctx.quick else []
         common.require_tlc_ok(ctx, gc, "GenCtl / Sound")
         go = common.tlc(ctx, "GenColl", cfg="GenColl_2", workers=8, timeout=6000)
         common.require_tlc_ok(ctx, go, "GenColl / Sound")
         gj = common.tlc(ctx, "GenObj", cfg="GenObj_2", workers=8, timeout=6000, want_tags=("CASE", "DECLS"))
         common.require_tlc_ok(ctx, gj, "GenObj / Sound")
-        gj_sim = common.tlc(ctx, "GenObj", cfg="GenObj_sim", workers=8, timeout=1500, simulate=1000, depth=6)["cases"]["CASE"] if not ctx.quick else []
-        go_sim = common.tlc(ctx, "GenColl", cfg="GenColl_sim", workers=8, timeout=1500, simulate=1500, depth=6)["cases"]["CASE"] if not ctx.quick else []
+        gj_sim = _uniq(common.tlc(ctx, "GenObj", cfg="GenObj_sim", workers=1, timeout=1500, simulate=400, depth=6)["cases"]["CASE"]) if not ctx.quick else []
+        go_sim = _uniq(common.tlc(ctx, "GenColl", cfg="GenColl_sim", workers=1, timeout=1500, simulate=600, depth=6)["cases"]["CASE"]) if not ctx.quick else []
         sim_rows = []
         if n_sim:
             gs = common.tlc(ctx, "GenProg", cfg="GenProg_s3", workers=8, timeout=1500, simulate=n_sim, depth=14)
@@ -99,13 +110,13 @@ def run(ctx):
     drows = gd["cases"]["CASE"]
     cases += [pipeline.data_case(r, k) for k, r in enumerate(pick(drows, 110 if ctx.quick else 1396))]
     cases += [pipeline.prog_case(r, k, prefix="s") for k, r in enumerate(uniq_sim[:n_sim])]
-    cases += [pipeline.ctl_case(r, k) for k, r in enumerate(pick(crows, 300 if ctx.quick else 6000))]
+    cases += [pipeline.ctl_case(r, k) for k, r in enumerate(pick(crows, 300 if ctx.quick else 2500) + gc_sim)]
     orows = go["cases"]["CASE"]
     universe += len(orows)
     jrows = gj["cases"]["CASE"]
     universe += len(jrows)
-    cases += [pipeline.obj_case(r, k, gj["cases"]["DECLS"][0]) for k, r in enumerate(pick(jrows, 160 if ctx.quick else 4030) + gj_sim)]
-    cases += [pipeline.coll_case(r, k) for k, r in enumerate(pick(orows, 220 if ctx.quick else 5000) + go_sim)]
+    cases += [pipeline.obj_case(r, k, gj["cases"]["DECLS"][0]) for k, r in enumerate(pick(jrows, 160 if ctx.quick else 1500) + gj_sim)]
+    cases += [pipeline.coll_case(r, k) for k, r in enumerate(pick(orows, 220 if ctx.quick else 2000) + go_sim)]
     with ctx.timed("self_check"):
         rej = pipeline.self_check_exprs(ctx, [c for c in cases if c["kind"] == "expr"])
         rej.update(pipeline.self_check_progs(ctx, [c for c in cases if c["kind"] in ("prog", "coll", "obj")]))
